@@ -326,7 +326,8 @@ def run(ctx):
         "distinct_nontrivial": len(tot["distinct"]) + len(a["distinct"]),
         "rule": "(a) one evaluation = one generated call sequence on `pavex::Blueprint` (10-35 calls: every registration "
                 "method, post-registration modifiers incl. repeated/overriding ones, prefix/domain chains, nesting to depth 5, "
-                "method-call and path-call syntax, random line/column layout) persisted and read back by a second process; "
+                "method-call and path-call syntax, random line/column layout) persisted - over a file that already holds another persisted "
+                "blueprint (a neighbouring sequence, longer or shorter) or, every fourth time, the same one - and read back by a second process; "
                 "distinct = sequence of (op, modifier, string class, nesting) with >= 3 ops that round-tripped equal to the "
                 "expectation. (b) one evaluation = one annotated item whose attributes went macro -> rustdoc JSON -> "
                 "pavexc_attr_parser; distinct = (macro, argument combination class)",
